@@ -283,7 +283,9 @@ class PythonRegex(regex.Regex):
         # The same character can be written escaped or not
         excluded.update([TRANSFORMATIONS.get(x[1], x[1]) for x in excluded
                          if len(x) == 2 and x[0] == "\\"])
-        return [x for x in ESCAPED_PRINTABLES if x not in excluded]
+        excluded.update([RECOMBINE[x] for x in excluded if x in RECOMBINE])
+        # Unlike the dot, a negated set matches the newline
+        return [x for x in ESCAPED_PRINTABLES + ["\n"] if x not in excluded]
 
     @staticmethod
     def _insert_or(l_to_modify):
